@@ -20,6 +20,9 @@
 #include "sim/sim.hpp"
 #include "vk/vk.hpp"
 #include "mon/mon.hpp"
+extern "C" {
+#include "shim/shim.h"
+}
 
 extern "C" {
 ssize_t __real_write(int, const void *, size_t);
@@ -93,7 +96,10 @@ static std::string epoll_interest(int epfd) {
 	std::map<int, unsigned> m;
 	for (char *p = buf; (p = strstr(p, "tfd:")); p += 4) {
 		int tfd = 0; unsigned ev = 0;
-		if (sscanf(p, "tfd: %d events: %x", &tfd, &ev) == 2) for (int k = 0; k < R->nfd; k++) if (R->rd[k] == tfd) m[k] = ev & (EPOLLIN | EPOLLOUT);
+		if (sscanf(p, "tfd: %d events: %x", &tfd, &ev) == 2) {
+			for (int k = 0; k < R->nfd; k++) if (R->rd[k] == tfd) m[k] = ev & (EPOLLIN | EPOLLOUT);
+			if (tfd == shim_base_notify_fd(R->base, 0)) m[100] = ev & (EPOLLIN | EPOLLOUT);	// the wake-up fd of a notifiable base (worker classes with locks)
+		}
 	}
 	std::string s;
 	for (auto &kv : m) { char b[32]; snprintf(b, sizeof b, "pipe%d:%x ", kv.first, kv.second); s += b; }
@@ -102,6 +108,7 @@ static std::string epoll_interest(int epfd) {
 static std::string model_interest() {
 	std::map<int, unsigned> m;
 	for (auto &e : R->evs) if (e.ev && e.kind == 0 && e.added) m[e.k] |= EPOLLIN;
+	if (shim_base_notify_fd(R->base, 0) >= 0) m[100] = EPOLLIN;
 	std::string s;
 	for (auto &kv : m) { char b[32]; snprintf(b, sizeof b, "pipe%d:%x ", kv.first, kv.second); s += b; }
 	return s;
@@ -304,8 +311,14 @@ static void execute(const Plan &p) {
 				char c = 0;
 				ssize_t rn;
 				while ((rn = __real_read(rep[0], &c, 1)) < 0 && errno == EINTR) {}
-				int sig_sent = -1;
-				if (rn == 1 && c == 'R' && p.c("sig_to_child")) { int s = (int)(p.c("sig_to_child") - 1) % NSIGS; if (sig_events_added(s) > 0) { kill(pid, SIGS[s]); sig_sent = s; fault("signal-to-child-only"); tr("api kill child sig=%d", SIGS[s]); } }
+				int sig_sent = -1, expect_death = -1;
+				if (rn == 1 && c == 'R' && p.c("sig_to_child")) {
+					int s = (int)(p.c("sig_to_child") - 1) % NSIGS;
+					if (sig_events_added(s) > 0) { kill(pid, SIGS[s]); sig_sent = s; fault("signal-to-child-only"); tr("api kill child sig=%d", SIGS[s]); }
+					// nobody manages this signal (never added, or its last event deleted before the fork): after event_reinit the child
+					// must still have the default disposition, i.e. the signal ends it
+					else if (p.c("sig_unmanaged")) { kill(pid, SIGS[s]); expect_death = s; fault("unmanaged-signal-to-child"); tr("api kill child sig=%d (unmanaged)", SIGS[s]); }
+				}
 				(void)sig_sent;
 				c = 'g';
 				(void)!__real_write(go[1], &c, 1);
@@ -316,7 +329,10 @@ static void execute(const Plan &p) {
 				int st = 0;
 				while (waitpid(pid, &st, 0) < 0 && errno == EINTR) {}
 				tr("child exit status=0x%x report=%s", st, msg.substr(0, 200).c_str());
-				if (c != 'R' && msg.empty()) msg = "";	// died before or inside event_reinit
+				if (expect_death >= 0) {
+					if (WIFSIGNALED(st) && WTERMSIG(st) == SIGS[expect_death]) { probe("child-ended-by-unmanaged-signal"); msg = "OK\t" + std::to_string([&]() { unsigned b = 0; for (int k = 0; k < run.nfd; k++) if (run.has_data[k]) b |= 1u << k; return b; }()) + "\t0\t1\t1\n"; }
+					else { violation("C11.unmanaged-signal-swallowed", "signal %d, which no event manages, was sent to the child after event_reinit: the default action should have ended it, but it went on (wait status 0x%x, report '%s')", SIGS[expect_death], st, msg.substr(0, 60).c_str()); msg = "OK\t0\t0\t0\t0\n"; }
+				}
 				if (msg.compare(0, 2, "V\t") == 0) {
 					size_t t2 = msg.find('\t', 2);
 					std::string rule = msg.substr(2, t2 == std::string::npos ? std::string::npos : t2 - 2), det = t2 == std::string::npos ? "" : msg.substr(t2 + 1);
@@ -358,6 +374,7 @@ static void generate(Plan &p, Rng &r) {
 	p.cfg["child_len"] = nchild;
 	p.cfg["sig_to_child"] = r.chance(0.4) ? r.range(1, NSIGS) : 0;
 	p.cfg["sig_to_parent"] = r.chance(0.3) ? r.range(1, NSIGS) : 0;
+	p.cfg["sig_unmanaged"] = r.chance(0.3);
 	auto gen = [&](bool pre) {
 		Op o;
 		int x = (int)r.below(100);
